@@ -54,4 +54,14 @@ PROPS = {
         'assumptions': ['derive(PartialEq, Ord, Hash) act on the storage field only (PhantomData contributes nothing) - checked by '
                         'the recorded hasher input and cmp results on the generated cases'],
     },
+    'C05': {
+        'level_text': 'PROVISIONAL (proofs in progress): Coq model of filter_kmers (coq/Algo/Filter.v) with pass planning, buckets, '
+                      'stable sort + grouping and the two shipped summarizers; ranges_tile proved; reference grouping checked '
+                      'against the implementation on every generated case.',
+        'level_note': 'Trusted: model transcription of filter.rs / KmerExtsIter / Exts; std stable sort and itertools group_by '
+                      '(modelled as insertion sort + adjacent grouping); BoomHashMap2 (only read back). No axioms.',
+        'technique': 'list induction over a sort/group pipeline + finite sweep of the pass plans (Coq), differential correspondence',
+        'rule': 'read sets from a motif grammar; non-trivial = some (canonical) k-mer observed at least twice; f.filter additionally >= 2 passes',
+        'assumptions': [],
+    },
 }
